@@ -613,6 +613,11 @@ func (ev *Ev) equal(l, r Val) string {
 		}
 		ev.errf("comparison of %T with nil", r)
 	}
+	if _, rIsRec := r.(GRec); rIsRec {
+		if _, lIsRec := l.(GRec); !lIsRec {
+			l, r = r, l
+		}
+	}
 	switch a := l.(type) {
 	case Sc:
 		return sEq(a.T, ev.sc(r))
@@ -829,7 +834,7 @@ func (ev *Ev) call(n *ast.CallExpr) Val {
 		}
 		var as []string
 		for i := range n.Args {
-			as = append(as, tm(arg(i)))
+			as = append(as, ev.sc(arg(i)))
 		}
 		return Sc{T: sApp(pf.SMT, as...), Sort: pf.Ret}
 	}
